@@ -143,3 +143,35 @@ Definition check_scenario (v : tree) (tr : trace) (obs : list crash_obs) : verdi
   mkVerdict (first_reject (snap_step v) snap_init tr 0)
             (failure_classes [] obs 0)
             (view_mismatches v obs (scan v snap_init tr) obs 0).
+
+(** ** The state directory as the kernel reports it (harness/c12fs_test.go)
+
+    An inotify watch on the state directory while commands run under the real
+    scheduler; the observation is the ordered list of (event, name).  This
+    clause does not depend on where the hooks sit: every file-system call on
+    the directory is seen.
+
+    Monitor: once the state file has appeared, the only thing that may happen
+    to that name is [FsMovedTo] — another file renamed over it, which replaces
+    it atomically.  Never a delete or a move away (a window without a state
+    file), an in-place write ([FsModify], [FsCloseWrite]: a window with a
+    partial file), a second create, or anything else.  Other names (the
+    temporary file) are free.  It is the observable counterpart of
+    proofs/SnapFacts.v: live_changes_only_at_rename. *)
+Fixpoint fs_failures (seen : bool) (evs : list (fsk * fsname)) (n : nat) : list nat :=
+  match evs with
+  | [] => []
+  | (k, FsTemp) :: rest => fs_failures seen rest (S n)
+  | (k, FsLive) :: rest =>
+    if seen then (match k with FsMovedTo => [] | _ => [n] end) ++ fs_failures true rest (S n)
+    else (match k with FsMovedTo | FsCreate => [] | _ => [n] end) ++ fs_failures true rest (S n)
+  end.
+
+Definition c12_fs_failures (evs : list (fsk * fsname)) : list nat := fs_failures false evs 0.
+Definition c12_fs_ok (evs : list (fsk * fsname)) : bool := match c12_fs_failures evs with [] => true | _ => false end.
+
+Definition count_fs (k : fsk) (nm : fsname) (evs : list (fsk * fsname)) : nat :=
+  length (filter (fun e => match fst e, k with
+                           | FsCreate, FsCreate | FsMovedTo, FsMovedTo | FsDelete, FsDelete | FsMovedFrom, FsMovedFrom => true
+                           | _, _ => false end &&
+                           match snd e, nm with FsLive, FsLive | FsTemp, FsTemp => true | _, _ => false end) evs).
